@@ -47,8 +47,18 @@ def total_upto(k, maxlen):
 
 def prepare(run, debug=False):
     gv = vlib.build_harness("release")
-    vlib.regen(gv)
-    gm = vlib.build_model()
+    try:
+        vlib.regen(gv)
+        gm = vlib.build_model()
+    except TieBroken as e:
+        # a regenerated table obligation (or the extraction) no longer checks against /repo's working tree.  The
+        # model built last (of the code as it was) still serves the SEARCH for a failing input: every candidate is
+        # judged by the spec-side oracle against the crate, never by the model alone.
+        gm = os.path.join(vlib.WORK, "gm")
+        if not os.path.exists(gm):
+            raise
+        run.oblige(e.what, False)
+        run.pending_broken = [(e.what + " (searching for a failing input with the model built last)", e.log)]
     gvd = vlib.build_harness("debug") if debug else None
     return gv, gm, gvd
 
@@ -116,6 +126,7 @@ def prove(run, props_file, extra_targets=(), gen_targets=(), allow_axioms=()):
 
 def conclude(run, broken):
     """obligations broken but no failing input exhibited by the families"""
+    broken = list(broken) + list(getattr(run, "pending_broken", []))
     if broken and not any(not no_input for _, no_input in run.violations):
         run.violation({"kind": "obligation-broken",
                        "what": [b[0] for b in broken],
@@ -295,6 +306,9 @@ def long_string_candidates(rng, n):
             out.append(q + body)            # unterminated
         if rng.random() < 0.1:
             out.append(q + body + "\n" + q)  # raw newline inside
+    # every printable ASCII character directly after a backslash (the spec's escape table is abfnrtv\\'" + digits xuU)
+    for c in map(chr, range(32, 127)):
+        out += ["'\\" + c + "'", '"\\' + c + '"', '"a\\' + c + 'b"']
     for sp in specials:
         for q in ("'", '"'):
             out.append(q + "\\u" + sp[-4:].rjust(4, "0") + q)
@@ -339,6 +353,19 @@ def check_c09(run, replay):
     enum_family(run, gv, gm, "num", "bare", "toks", total, "F-num:num:bare")
     long_literal_family(run, gv, gm, "num", long_number_candidates(__import__("random").Random(seed_of(run)), budget(run, 20000, 200000)),
                         "F-num-long")
+    # the same literals behind multi-byte text (character index vs byte offset): every string <= 3 that starts a number
+    # and a sample of the longer candidates, after five prefixes; judged by the spec lexer, compared with the model
+    fam = Families(run, gv, gm)
+    nums = [decode(ALPHABETS["num"], i) for i in range(total_upto(20, 3))]
+    nums = [n for n in nums if n and (n[0].isdigit() or n[0] == ".")]
+    nums += long_number_candidates(__import__("random").Random(seed_of(run) + 1), budget(run, 1500, 15000))
+    cases = [pfam.Case(pre + n + post, "F-num-after-multibyte") for n in sorted(set(nums))
+             for pre, post in (("\u00e9 ", ""), ("\u65e5\u672c = ", "\n"), ("/*\U0001F600*/", ";"), ("\"\u00e9\" + ", " // \u00e9"), ("x\n\t\u65e5 := ", " \u00e9"))]
+    impl, mod, toks = fam.exec(cases, mode="tokens")
+    fam.judge(cases, impl, mod, toks, "full", oracle_tokens, "numeric literals after multi-byte text")
+    run.extra.setdefault("families", []).extend(dict(v, family=k) for k, v in sorted(fam.fam_stats.items()))
+    if fam.corr_broken and not any(not ni for _, ni in run.violations):
+        broken.append(("correspondence on F-num-after-multibyte", json.dumps(fam.corr_broken[:3])[:3000]))
     run.cov["rule"] = ("exhaustive: every string of length <= %d over {0 1 7 8 9 a e f p x X o O b B _ . + - i} "
                        "scanned by the crate (hook) and by the extracted model, projection tokens+EOF/ERR, block hashes compared; "
                        "the extracted spec classifier (regex transcription of the EBNF) judges every string: a string that is a "
@@ -1977,6 +2004,16 @@ def check_c20(run, replay):
         cases.append(pfam.Case("package p\nfunc f() { x = " + "(" * n + "y" + ")" * n + " }\n", "F-deep"))
     # nesting around every cap: a feature must not move a limit either
     cases += nest_families([30, 63, 64, 65, 100, 120, 121, 150, 191, 192, 193])
+    # multi-byte text at every offset of a token (the hooks assert and copy exactly there): all strings <= 3 over the
+    # 1-4 byte alphabet as an initialiser, and tokens made of 2-4 characters of every byte width
+    for i in range(total_upto(len(ALPHABETS["utf8"]), 3)):
+        cases.append(pfam.Case("package p; var _ = " + decode(ALPHABETS["utf8"], i), "F-utf8-builds"))
+    wide = ["a", "\u00e9", "\u65e5", "\U0001D518", "\U0001F600", "\U00020000"]
+    import itertools as _it
+    for n in (2, 3, 4):
+        for t in _it.product(wide, repeat=n):
+            w = "".join(t)
+            cases.append(pfam.Case("package p; var %s = 1; func f() { %s++; _ = \"%s\" /* %s */ }" % (w, w, w, w), "F-utf8-builds"))
     srcs = [c.src for c in cases]
     base = vlib.run_records(gv, "parse", srcs)
     model = vlib.run_records(gm, "parse", srcs)
